@@ -168,6 +168,38 @@ def declaredXtis : List GRec → List Int
   | .extern x :: rs => x.map (fun e => asI16 e.2.1) ++ declaredXtis rs
   | _ :: rs => declaredXtis rs
 
+/-- the XTI entries the ExternSheet records declare, as written (16-bit patterns) -/
+def declaredXtiTriples : List GRec → List (Nat × Nat × Nat)
+  | [] => []
+  | .extern x :: rs => x ++ declaredXtiTriples rs
+  | _ :: rs => declaredXtiTriples rs
+
+/-! #### the meaning of a 3-D reference in a defined name, written from the specification (not from the code)
+
+    MS-XLS 2.5.198.x (PtgRef3d, PtgArea3d …): `ixti` is a zero-based index into the XTI array of the ExternSheet
+    record (2.4.105); for an XTI that points into this workbook, `itabFirst` (a signed 16-bit value, 2.5.292) is the
+    zero-based index of the first referenced sheet in the BoundSheet8 order, −1 means the sheet was deleted
+    (`#REF`), −2 a workbook-level reference. A Lbl (2.4.150) with `itab = 0` is a workbook-global name, `itab = k`
+    a name local to the k-th sheet; both kinds are defined names of the workbook. -/
+
+/-- "the 3-D reference through XTI entry `ixti` designates the sheet named `s`" -/
+def Refers (sheetNames : List Text) (xtis : List (Nat × Nat × Nat)) (ixti : Nat) (s : Text) : Prop :=
+  ∃ (e : Nat × Nat × Nat) (k : Nat), xtis[ixti]? = some e ∧ asI16 e.2.1 = (k : Int) ∧ sheetNames[k]? = some s
+
+/-- what `defined_names()` must report for a defined name whose formula decodes to `decl.2` = (3-D sheet index or
+    none, reference text): the name; and the text itself, or `<sheet>!<text>` with the designated sheet, or
+    `#REF!<text>` when the reference designates no sheet of this workbook -/
+def NameMeets (sheetNames : List Text) (xtis : List (Nat × Nat × Nat)) (decl : Text × Option Nat × Text) (got : Text × Text) : Prop :=
+  got.1 = decl.1 ∧
+  match decl.2.1 with
+  | none => got.2 = decl.2.2
+  | some ixti =>
+    (∀ s, Refers sheetNames xtis ixti s → got.2 = s ++ 33 :: decl.2.2) ∧
+    ((¬ ∃ s, Refers sheetNames xtis ixti s) → got.2 = [35, 82, 69, 70] ++ 33 :: decl.2.2)
+
+/-- the scope a Lbl declares: `none` = workbook-global, `some k` = local to the k-th sheet (0-based) -/
+def lblScope (itab : Nat) : Option Nat := if itab = 0 then none else some (itab - 1)
+
 /-- the workbook uses the 1904 date system iff some DATEMODE record carries 1 -/
 def declared1904 (recs : List GRec) : Bool := recs.any fun r => match r with | .date v => v == 1 | _ => false
 
